@@ -67,6 +67,21 @@ CHECKS["C05"] = dict(
     ref="DESIGN.md 5.C05",
 )
 
+CHECKS["C01"] = dict(
+    engine="symx+z3",
+    technique="bounded symbolic execution (symx/z3): BV-mode lemma on symbolic exception-table bytes and a symbolic instruction index for the real decoder and the real handler-chain walk (AST slice of inspect_frame); per compiled code object of a with-centric program grammar, f_lasti symbolic over every reachable suspension offset through the real contexts_active_in_frame with a validated inspect_frame model; oracle = tagged abstract interpretation",
+    text="Lemma: for all tables of 1-2 (thorough 3) entries with 1-2 (3) byte varints with symbolic payloads and every instruction index, the real decoder equals the format spec and the real chain walk equals CPython's get_exception_handler iterated. Main: for every code object of the corpus (quick ~670, thorough ~5000) and every reachable suspension offset, the real analysis returns exactly the entered-but-not-exited managers (obj identity, is_async, is_exiting), without InspectionWarning. CPython 3.12 only; the corpus is a stated bound, not a solver result.",
+    note="The ctypes half of inspect_frame is replaced by a model (blocks from the real chain walk, stack from the abstract interpreter) that is validated against the real interpreter at every real suspension of every program in the run (mismatch = exit 2). Known finding F2 is classified by a bytecode-only predicate and reported as KNOWN-FINDING. Counterexamples are replayed on really suspended frames.",
+    ref="DESIGN.md 5.C01",
+)
+CHECKS["C08"] = dict(
+    engine="symx+z3",
+    technique="bounded symbolic execution (symx/z3) with f_lasti symbolic over every reachable suspension offset of each compiled code object (C01 corpus + target-form x layout corpus), real analyze_with_blocks / describe_assignment_target / locals fallback; oracle = AST of the same source joined through instruction positions; static stdlib table leg",
+    text="Every Context reported at every reachable suspension offset has start_line = line of the with keyword and a varname that is None, or parses to the item's as-target, or (item without target) names a local bound to the manager; supported target forms are never dropped. Thorough: analyze_with_blocks for every with block of every function of the standard library (about 500 blocks) against the AST.",
+    note="As C01 for the model. The stdlib leg is a concrete enumeration of compiler output (corpus bound, no symbolic variable). CPython 3.12 only.",
+    ref="DESIGN.md 5.C08",
+)
+
 NOT_APPLICABLE = {
     "C06": "Quantifies over interpreter bookkeeping (reference counts, object lifetime, crashes) behind a ctypes boundary; no value a solver can range over, and any symbolic engine perturbs the very refcounts measured (DESIGN.md 5.C06).",
     "C07": "OS-thread interleavings against raw-memory reads; depends on when CPython releases the GIL, not on Python-level data; needs a runtime schedule controller, a different technique family (DESIGN.md 5.C07).",
